@@ -117,6 +117,9 @@ impl Group for C10Sim {
             c("world perm|newch 2|newch 3|newch 5|newch 4|newch 3|forget 3|newch 4"),
             // a stale counterparty commitment number with changed HTLCs is refused late
             c("scp 0 0|scp 0 1|scp -1 2|scp -1 5|cpr 0 g|scp -2 1"),
+            // a full map of aged stubs: a creation refused for its retired id (and one refused for the full map) must
+            // not collect the garbage on the way
+            c("newch 5|forget 1|newch 6|newch 7|newch 8|blkn 7|newch 3|newch 9|hb|newch 9|newch 5"),
             // re-signing the funding transaction: accepted, then refused at the signing step
             c("osign g|osign b|vh 0 g 0|rv 0|osign g"),
         ]
